@@ -18,7 +18,8 @@ RULE = ("exchanges with a loopback HTTP server that records the raw request: mes
         "distinct exchanges"
         ' ; plus: sequences of different operations on one client, challenge-response credentials changed between requests, header names / coding labels in other spellings, connections broken in the middle of a body'
         ' ; the same Request sent twice; status mapping with debug logging switched on; empty header values in the headers option'
-        ' ; caller values for User-Agent / Accept; error bodies on open(); a peer that never answers the connection attempt')
+        ' ; caller values for User-Agent / Accept; error bodies on open(); a peer that never answers the connection attempt'
+        ' ; open() on a refused connection; a proxy named only by the process environment is not used')
 ASSUMPTIONS = ["urllib / http.client / http.cookiejar / gzip / zlib are runtime (trusted); the loopback server is the "
                "independent observer of what is on the wire"]
 PARTIAL = [{"theorem": "body_fidelity / cookies / failures", "missing": "socket-level behaviour is runtime: checked by the "
